@@ -7,6 +7,8 @@ import GcmpyModel.Driver.Loaders
 import GcmpyModel.Driver.C18
 import GcmpyModel.Driver.Mix
 import GcmpyModel.Driver.C15
+import GcmpyModel.Driver.C16
+import GcmpyModel.Driver.C17
 /-! Line protocol: one JSON request per line on stdin, one JSON reply per line on stdout.
     The driver only *executes* the model's definitions; it is outside the proofs. -/
 open Lean Gcmpy.Driver
@@ -25,6 +27,8 @@ def dispatch (j : Json) : R Json := do
   | "c13" => Mix.c13 j
   | "c14" => Mix.c14 j
   | "c15" => C15.handle j
+  | "c16" => C16.handle j
+  | "c17" => C17.handle j
   | "ping" => pure (obj [("pong", Json.bool true)])
   | _ => throw s!"unknown op {op}"
 
